@@ -497,4 +497,36 @@ func init() {
 	root("subquery_expr", "expr", func(g *G) { g.p("("); g.Query(); g.p(")") })
 	root("call_expr", "expr", func(g *G) { g.nest(g.call) })
 	root("postfix_expr", "expr", func(g *G) { g.nest(g.postfix) })
+	// field access in focus: a reserved keyword is a field name directly after "."; a subscript or a second field may follow
+	root("field_access", "expr", func(g *G) {
+		switch g.alt(3) {
+		case 0:
+			g.plainID()
+		case 1:
+			g.param()
+		case 2:
+			g.p("(")
+			g.plainID()
+			g.p(")")
+		}
+		for i := 0; i < 2; i++ {
+			g.p(".")
+			switch g.alt(3) {
+			case 0:
+				g.plainID()
+			case 1:
+				g.emit(Tok{Text: "select", Class: ID, Val: "select"})
+			case 2:
+				g.emit(Tok{Text: "ORDER", Class: ID, Val: "ORDER"})
+			}
+			if !g.opt() {
+				break
+			}
+		}
+		if g.opt() {
+			g.p("[")
+			g.num("0")
+			g.p("]")
+		}
+	})
 }
